@@ -247,6 +247,61 @@ func c18Planted(c *Ctx, maxFill int) {
 	rec("", 0)
 }
 
+// c18Separation: "statement separation, which is decided from token lines, is
+// unaffected by comments". Differential oracle: two statements separated by a
+// newline and the same two statements with a comment placed around that newline
+// must parse to the same tree (positions and comments ignored), for statements
+// that start with every kind of term (identifier, literal, bracket, prefix
+// operator, keyword).
+var c18Stmts = []string{"a := 1", "[a, b] := [1, 2]", "(1 + 2)", "not true", "-1", "+a", "\"s\"", "r\"s\"", "f(1)", "let x := 1", "1", "null", "true",
+	"if a {\n    b := 1\n}", "for i in l {\n    log(i)\n}", "func g() {\n}", "try {\n} finally {\n}", "mutex m {\n}", "return 1", "x.y := 2", "a[1] := 3", "import \"x\" as y"}
+
+var c18CommentSeps = []string{" # c\n", "\n# c\n", "\n/* c */ ", "\n/* c */\n", " /* c */\n", " /* c\nd */ ", "\n/* c\nd */\n", "\n\n# c\n", "\n# c\n\n", " /* c */ # d\n", "\n/**/ ", " #\n", "\r\n# c\r\n"}
+
+func c18Separation(c *Ctx) {
+	for _, s1 := range c18Stmts {
+		for _, s2 := range c18Stmts {
+			for _, s3 := range []string{"", "\nz := 9"} {
+				if !c.Mine() {
+					continue
+				}
+				plain := s1 + "\n" + s2 + s3
+				var base *parser.ASTNode
+				var berr error
+				if pk, pm := Guard(func() { base, berr = parser.Parse("v", plain) }); pk != "" {
+					c.Begin(plain)
+					c.Viol(pk, pm, plain)
+					continue
+				}
+				for _, sep := range c18CommentSeps {
+					src := s1 + sep + s2 + s3
+					c.Begin(src)
+					var ast *parser.ASTNode
+					var err error
+					if pk, pm := Guard(func() { ast, err = parser.Parse("v", src) }); pk != "" {
+						c.Viol(pk, pm, src)
+						continue
+					}
+					c.Nontrivial()
+					switch {
+					case (berr == nil) != (err == nil):
+						c.Viol("statement-separation changed by a comment", fmt.Sprintf("%q parses with result %v, the same statements with a comment between them %q with result %v", plain, berr, src, err), src)
+					case berr == nil:
+						if d := treeDiff(base, ast, "", 0); d != "" {
+							c.Viol("statement-separation changed by a comment", fmt.Sprintf("%q and %q parse into different trees: %s", plain, src, d), src)
+						} else {
+							c.Outcome("same-tree")
+						}
+					default:
+						c.Outcome("both-rejected")
+					}
+				}
+			}
+		}
+	}
+	c.Sample("\"a := 1\\n[a, b] := [1, 2]\" vs \"a := 1 # c\\n[a, b] := [1, 2]\": same tree")
+}
+
 func c18CountStatements(src string) int {
 	n := 0
 	for _, f := range c18Fillers {
@@ -258,6 +313,10 @@ func c18CountStatements(src string) int {
 }
 
 func init() {
+	register(&Part{Prop: "C18", Name: "separation-by-comments", Quick: 2, Thor: 2,
+		Desc: "22 statements starting with every kind of term (identifier, literals, [ ( prefix operators, keywords) in every ordered pair (+ an optional third statement) x 13 ways of placing a comment around the separating line break (# to end of line, own-line #, /* */ before / after / spanning the break, empty comments, CR LF): the parse must equal the parse of the comment-free text (positions and comments ignored)",
+		Rule: "full product; non-trivial = every case",
+		Run:  c18Separation})
 	register(&Part{Prop: "C18", Name: "token-positions", Quick: 16, Thor: 32,
 		Desc: "every sequence of <= 4 items (thorough: also 5 items with separators {space, LF, none}) over {identifier, number, :=, (, quoted strings incl. multi-byte and literal newline, raw multi-line string, # comments, /* */ comments incl. multi-line} x separators {space, LF, CRLF, tab, none where the lexer cannot merge}; oracle: Pos = recorded offset, Lline/Lpos recomputed from the source text",
 		Rule: "odometer over items x separators; non-trivial = the source lexes into exactly one token per generated item (others are counted as skipped)",
